@@ -584,7 +584,9 @@ func Parse(block []rune, pos int) (pt ParsedTokens, syntaxHighlighted string) {
 				ansiChar(hlPipe, block[i:i+2]...)
 				ansiStartFunction()
 				i++
-			case i > 0 && block[i-1] == ' ':
+			case i > 0 && (block[i-1] == ' ' || block[i-1] == '\t'), next(' '), next('\t'):
+				// like the block parser: `?` is only part of a word (a glob) when there
+				// is no white space on either side of it
 				if pos != 0 && pt.Loc >= pos {
 					return
 				}
